@@ -169,6 +169,47 @@ def run_case(case):
                 if not (np.allclose(gx, fx, rtol=0, atol=1e-12 * sc) and np.allclose(gy, fy, rtol=0, atol=1e-12 * sc)):
                     bad(f"first_step|{newton}", f"first step differs from Simplified: {gx.tolist()},{gy.tolist()} vs {fx.tolist()},{fy.tolist()}",
                         {"base": xb.tolist(), "y0": y.tolist(), "rho": rho, "dt": dt})
+            # sequences of steps on ONE method object: iterates whose natural active sets alternate (A, B, A, C)
+            seq = [(xb, y), (base_pts[1 - bi], 0.5 * y - 0.5), (xb, y), (0.5 * (xb + base_pts[1 - bi]), 0.5 * y + 0.25), (base_pts[1 - bi], 0.5 * y - 0.5)]
+            for newton in ("Simplified", "Full", "ActiveSet"):
+                for ss in ("Standard", "Symmetric"):
+                    params, P, ev = P_of(ss, "LU", newton)
+                    it0 = Iterate(P, params, xb, y, ev)
+                    with np.errstate(all="ignore"):
+                        meth = newton_method(P, params, it0, dt, rho)
+                    p0 = O.implicit_p(T, (xb, y), R0, rho, dt)
+                    A_orig = O.implicit_active(T, p0)
+                    for k, (xs, ysq) in enumerate(seq):
+                        Rs = O.RefPoint(T, xs, ysq)
+                        ps = O.implicit_p(T, (xb, y), Rs, rho, dt)
+                        margin = np.minimum(np.abs(ps - (T.var_lb - 1e-8)), np.abs(ps - (T.var_ub + 1e-8)))
+                        if not (margin > 1e-9 * max(1.0, float(np.max(np.abs(ps))))).all():
+                            break
+                        A_cur = O.implicit_active(T, ps)
+                        A_use = A_orig if newton == "Simplified" else A_cur
+                        R_der = Rs if newton == "Full" else R0
+                        Jm = O.implicit_jac(T, R_der, rho, dt, A_use)
+                        condk = np.linalg.cond(Jm)
+                        its = Iterate(P, params, xs, ysq, ev)
+                        try:
+                            with np.errstate(all="ignore"):
+                                st = meth.step(its)
+                        except StepSolverError:
+                            break
+                        if not np.isfinite(condk) or condk > 1e6:
+                            continue
+                        Fv = O.implicit_value(T, (xb, y), Rs, rho, dt, A_use)
+                        sref = np.linalg.solve(Jm, Fv)
+                        xn = np.clip(xs - sref[: T.n], T.var_lb, T.var_ub)
+                        yn = ysq - sref[T.n:]
+                        scl = max(1.0, float(np.max(np.abs(sref))), float(np.max(np.abs(xn))), float(np.max(np.abs(yn), initial=0)))
+                        err = max(float(np.max(np.abs(st.iterate.x - xn))), float(np.max(np.abs(st.iterate.y - yn), initial=0.0)))
+                        stats["seq_steps"] = stats.get("seq_steps", 0) + 1
+                        if not np.isfinite(err) or err > 1e-10 * condk * scl:
+                            bad(f"sequence|{newton}|{ss}", f"step {k} of a sequence on one {newton} Newton object differs from the dense Newton step by {err:.3e} "
+                                f"(active set at this iterate {A_cur.astype(int).tolist()}, at the first {A_orig.astype(int).tolist()})",
+                                {"base": xb.tolist(), "y0": y.tolist(), "rho": rho, "dt": dt, "k": k})
+                            break
             if isqp:
                 for ss in ("Standard", "Extended", "Symmetric", "Asymmetric"):
                     params, P, ev = P_of(ss, "LU", "Full")
@@ -201,7 +242,7 @@ def run_case(case):
 
 def summarize(cases_, results, tier):
     out = {}
-    for k in ("solves", "compared", "illcond", "solver_failed", "exact_checked", "first_step", "iter_missed_tol"):
+    for k in ("solves", "compared", "illcond", "solver_failed", "exact_checked", "first_step", "iter_missed_tol", "seq_steps"):
         out[k] = sum(r["stats"].get(k, 0) for r in results)
     return out
 
